@@ -10,7 +10,8 @@ from props.group_lib import (E_CFAIL, E_CSHUT, E_HBREPLY, E_JOIN, E_START, E_STO
 
 MODEL = "group"
 TIED = ["C16_consumers_subset_assignment", "C16_commit_identity", "C16_prepare_before_join", "C16_join_only_when_prepared", "C16_no_consumer_running_at_join", "C16_no_consumer_running_while_joining",
-        "C16_evicted_stopped_before_rejoin", "C16_evicted_step", "C16_single_join", "C16_heartbeat_only_stable", "C16_after_stop_only_leave", "C16_stop_no_consumers"]
+        "C16_evicted_stopped_before_rejoin", "C16_evicted_step", "C16_start_committed", "C16_prepare_shuts_down", "C16_graceful_shutdown_completes",
+        "C16_nobody_leaves_silently", "C16_start_registers", "C16_nobody_running_means_all_stopped", "C16_lookup_timeout_keeps_consumers", "C16_single_join", "C16_heartbeat_only_stable", "C16_after_stop_only_leave", "C16_stop_no_consumers"]
 EVICTING = (K_ILLGEN, K_INVGROUP, K_UNKMEMBER, K_TIMEOUT)
 
 
